@@ -812,6 +812,28 @@ func (c *Ctx) evalCall(env *specEnv, n *SNode) (specVal, error) {
 			return specVal{}, err
 		}
 		return specVal{Select(c.Arr(st, famChClosed, ArraySort(SInt, SBool)), x.t), tBool}, nil
+	case "lastsent":
+		// lastsent(ch): the value most recently sent on ch on this path (arbitrary if none)
+		x, err := argv(0)
+		if err != nil {
+			return specVal{}, err
+		}
+		cht, ok := x.typ.Underlying().(*types.Chan)
+		if !ok {
+			return specVal{}, fmt.Errorf("lastsent on non-channel")
+		}
+		if v, ok := c.lookupSent(st, x.t); ok {
+			return specVal{v, cht.Elem()}, nil
+		}
+		return specVal{c.FreshConst(st, "nosend", c.Reg.SortOf(cht.Elem())), cht.Elem()}, nil
+	case "sentnow":
+		// sentnow(ch): a send on ch happened on this path
+		x, err := argv(0)
+		if err != nil {
+			return specVal{}, err
+		}
+		_, ok := c.lookupSent(st, x.t)
+		return specVal{BoolLit(ok), tBool}, nil
 	case "waited":
 		// waited(wg): WaitGroup.Wait() on wg has returned on this path
 		x, err := argv(0)
@@ -1306,4 +1328,18 @@ func (c *Ctx) typeOfCallRes(env *specEnv, callee string, ord string, k int) type
 		}
 	}
 	return tAny
+}
+
+// lookupSent finds the last value sent on a channel, identifying the channel up to the
+// abbreviations introduced for long terms.
+func (c *Ctx) lookupSent(st *State, ch Term) (Term, bool) {
+	if v, ok := st.lastSent[ch.S]; ok {
+		return v, true
+	}
+	for k, v := range st.lastSent {
+		if st.aliases[k] == ch.S || (st.aliases[ch.S] != "" && st.aliases[ch.S] == st.aliases[k]) || st.aliases[ch.S] == k {
+			return v, true
+		}
+	}
+	return Term{}, false
 }
